@@ -8,10 +8,11 @@
    Contents:
    1. `flat_slots`, `locals_match`, `locals_shape`/`full_shape`
    2. `handoff_identity` (+ the variant with longer buffers)
-   3. the generic history runner `run_ops` and `C07_handoff`
-   4. the hypotheses are produced by construction (`llfree_new_locals_match`, `llfree_new_trees_len`) and
-      preserved by every operation (`*_shape` lemmas, `run_ops_shape`, `run_ops_locals_match`)
-   5. a non-vacuity example. *)
+   3. the generic history runner `run_ops` and `handoff_run_ops` (Properties/C07.v: C07_handoff)
+   4. the hypotheses are preserved by every operation (`*_shape` lemmas, one per primitive / loop / call;
+      `run_ops_shape`, `run_ops_locals_match`, `run_ops_trees_len`) and produced by construction
+      (`llfree_new_locals_match(_gen)`, `llfree_new_trees_len`); together: `handoff_after_history`
+   5. a non-vacuity example (module Example). *)
 From Coq Require Import List NArith PeanoNat Bool Lia.
 From LLF Require Import Base Row Bitfield Lower Upper.
 
@@ -34,9 +35,9 @@ Definition locals_match (classing : list (N * N)) (u : upper) : Prop :=
 Definition locals_shape (u : upper) : list (option nat) :=
   map (option_map (@length slot)) (locals u).
 
-(* everything about the sizes of the three buffers *)
-Definition full_shape (u : upper) : list (option nat) * nat * N :=
-  (locals_shape u, length (trees u), frames (low u)).
+(* everything about the sizes of the three buffers, and the configuration stored in the state *)
+Definition full_shape (u : upper) : list (option nat) * nat * N * N :=
+  (locals_shape u, length (trees u), frames (low u), dflt u).
 
 Definition total_slots (classing : list (N * N)) : nat :=
   fold_right (fun cn a => (nn (snd cn) + a)%nat) O classing.
@@ -106,7 +107,7 @@ Proof.
     { intros c' n' H'. apply HC. right; auto. }
     { rewrite upd_length; auto. }
     exists acc'. fold (flat_slots r u). split; [exact E|]. split; [exact L'|]. split.
-    + intros c' [<-|H'].
+    + cbn [map fst In]. intros c' [<-|H'].
       * rewrite Hout.
         -- rewrite nth_error_upd_same by (rewrite L; unfold nn; lia). symmetry. apply class_slots_nth; auto.
         -- intros Q. apply Hnin. apply in_map_iff in Q. destruct Q as ([c2 n2] & Q1 & Q2). cbn in Q1.
@@ -207,7 +208,7 @@ Section Handoff.
   (* C07: an allocator built in assume-initialized mode over (copies of) the three metadata buffers of u
      answers every call sequence - allocation, free, drain, tree changes and all statistics - with the same
      outputs and ends in the same state as u itself. *)
-  Theorem C07_handoff : forall u ops classing,
+  Theorem handoff_run_ops : forall u ops classing,
     locals_match classing u -> length (trees u) = nn (ntab g (frames (low u))) ->
     forall tjunk sjunk u',
       llfree_new g (frames (low u)) INone classing (dflt u) (low u)
@@ -218,3 +219,628 @@ Section Handoff.
     inversion H; subst. reflexivity.
   Qed.
 End Handoff.
+
+(* ====================================================================================== *)
+(* 4. the hypotheses are preserved by every operation: no operation changes the number of  *)
+(*    slots of a class, which classes are configured, the number of tree entries, the      *)
+(*    number of managed frames or the default class (`full_shape`)                         *)
+(* ====================================================================================== *)
+Ltac inv H := inversion H; subst; clear H.
+(* destruct the innermost match scrutinee of H, repeatedly *)
+Ltac brk H :=
+  repeat (cbv beta iota zeta in H;
+          match type of H with
+          | context [match ?x with _ => _ end] =>
+              lazymatch x with
+              | context [match _ with _ => _ end] => fail
+              | _ => destruct x eqn:?
+              end
+          end);
+  cbv beta iota zeta in H.
+
+Section LowerFrames.
+  Variable g : geom.
+
+  Lemma get_huge_loop_fr : forall n l ts co hn k r l',
+    get_huge_loop g l ts co hn k n = (r, l') -> frames l' = frames l.
+  Proof.
+    induction n; cbn [get_huge_loop]; intros l ts co hn k r l' H.
+    - inv H; auto.
+    - brk H. + inv H; auto. + eapply IHn; eauto.
+  Qed.
+
+  Lemma get_small_loop_fr : forall n l ts co st o j r l',
+    get_small_loop g l ts co st o j n = (r, l') -> frames l' = frames l.
+  Proof.
+    induction n; cbn [get_small_loop]; intros l ts co st o j r l' H.
+    - inv H; auto.
+    - brk H; try (inv H; reflexivity); eapply IHn; eauto.
+  Qed.
+
+  Lemma lower_get_fr l st o r l' : lower_get g l st o = (r, l') -> frames l' = frames l.
+  Proof.
+    unfold lower_get. intros H. brk H; try (inv H; reflexivity).
+    - eapply get_huge_loop_fr; eauto.
+    - eapply get_small_loop_fr; eauto.
+  Qed.
+
+  Lemma lower_get_at_fr l f o r l' : lower_get_at g l f o = (r, l') -> frames l' = frames l.
+  Proof. unfold lower_get_at. intros H. brk H; inv H; reflexivity. Qed.
+
+  Lemma lower_get_opt_fr l st o f r l' : lower_get_opt g l st o f = (r, l') -> frames l' = frames l.
+  Proof.
+    unfold lower_get_opt. intros H. destruct f.
+    - destruct (lower_get_at g l n o) as [x l1] eqn:E. apply lower_get_at_fr in E. destruct x; inv H; auto.
+    - eapply lower_get_fr; eauto.
+  Qed.
+
+  Lemma put_small_fr l f o r l' : put_small g l f o = (r, l') -> frames l' = frames l.
+  Proof. unfold put_small. intros H. brk H; inv H; reflexivity. Qed.
+
+  Lemma partial_put_huge_fr l f o r l' : partial_put_huge g l f o = (r, l') -> frames l' = frames l.
+  Proof.
+    unfold partial_put_huge. intros H. brk H; try (inv H; reflexivity).
+    apply put_small_fr in H. exact H.
+  Qed.
+
+  Lemma lower_put_fr l f o r l' : lower_put g l f o = (r, l') -> frames l' = frames l.
+  Proof.
+    unfold lower_put. intros H. brk H; try (inv H; reflexivity).
+    - eapply partial_put_huge_fr; eauto.
+    - eapply put_small_fr; eauto.
+  Qed.
+End LowerFrames.
+
+Section Shape.
+  Variable g : geom.
+  Variable policy : N -> N -> N -> pol.
+
+  Lemma shape_with_low u l : frames l = frames (low u) -> full_shape (with_low u l) = full_shape u.
+  Proof. unfold full_shape, locals_shape. cbn [with_low low trees locals dflt]. intros ->. reflexivity. Qed.
+
+  Lemma shape_set_tree u i t : full_shape (set_tree u i t) = full_shape u.
+  Proof. unfold full_shape, locals_shape, set_tree. cbn [with_trees low trees locals dflt]. rewrite upd_length. reflexivity. Qed.
+
+  Lemma shape_set_slot u c j s : full_shape (set_slot u c j s) = full_shape u.
+  Proof.
+    unfold set_slot. destruct (class_slots u c) eqn:E; auto.
+    unfold full_shape, locals_shape. cbn [with_locals low trees locals dflt]. f_equal. f_equal. f_equal.
+    rewrite map_upd. apply upd_same_eq. rewrite nth_error_map, (class_slots_nth _ _ _ E).
+    cbn [option_map]. rewrite upd_length. reflexivity.
+  Qed.
+
+  Lemma lget_low_shape u row o f r u' : lget_low g u row o f = (r, u') -> full_shape u' = full_shape u.
+  Proof.
+    unfold lget_low. intros H. destruct (lower_get_opt g (low u) row o f) as [x l] eqn:E. inv H.
+    apply shape_with_low. eapply lower_get_opt_fr; eauto.
+  Qed.
+
+  Ltac tshape H := intros H; brk H; inv H; rewrite ?shape_set_tree, ?shape_set_slot; reflexivity.
+
+  Lemma trees_put_shape u i f r u' : trees_put g policy u i f = (r, u') -> full_shape u' = full_shape u.
+  Proof. unfold trees_put. tshape H. Qed.
+  Lemma trees_sync_shape u i m r u' : trees_sync u i m = (r, u') -> full_shape u' = full_shape u.
+  Proof. unfold trees_sync. tshape H. Qed.
+  Lemma trees_steal_shape u i c f r u' : trees_steal policy u i c f = (r, u') -> full_shape u' = full_shape u.
+  Proof. unfold trees_steal. tshape H. Qed.
+  Lemma trees_reserve_or_steal_shape u i c f r u' :
+    trees_reserve_or_steal policy u i c f = (r, u') -> full_shape u' = full_shape u.
+  Proof. unfold trees_reserve_or_steal. tshape H. Qed.
+  Lemma trees_unreserve_shape u i f c r u' : trees_unreserve g policy u i f c = (r, u') -> full_shape u' = full_shape u.
+  Proof. unfold trees_unreserve. tshape H. Qed.
+  Lemma trees_change_at_shape u i c f ch r u' : trees_change_at g u i c f ch = (r, u') -> full_shape u' = full_shape u.
+  Proof. unfold trees_change_at. tshape H. Qed.
+
+  Lemma locals_get_shape u c l t f r u' : locals_get g u c l t f = (r, u') -> full_shape u' = full_shape u.
+  Proof. unfold locals_get. tshape H. Qed.
+  Lemma locals_put_shape u c l t f r u' : locals_put g u c l t f = (r, u') -> full_shape u' = full_shape u.
+  Proof. unfold locals_put. tshape H. Qed.
+  Lemma locals_swap_shape u c l t f r u' : locals_swap g u c l t f = (r, u') -> full_shape u' = full_shape u.
+  Proof. unfold locals_swap. tshape H. Qed.
+  Lemma locals_set_start_shape u c l row r u' : locals_set_start g u c l row = (r, u') -> full_shape u' = full_shape u.
+  Proof. unfold locals_set_start. tshape H. Qed.
+
+  (* ----- generic loops: an access that preserves the shape ----- *)
+  Section Loops.
+    Context {A : Type}.
+    Variable access : upper -> N -> res A * upper.
+    Hypothesis Hacc : forall u i r u', access u i = (r, u') -> full_shape u' = full_shape u.
+
+    Lemma sb_try_shape : forall cands u r u', sb_try access u cands = (r, u') -> full_shape u' = full_shape u.
+    Proof.
+      induction cands as [|[k i] cs IH]; cbn [sb_try]; intros u r u' H.
+      - inv H; auto.
+      - destruct (access u i) as [x u1] eqn:E. apply Hacc in E.
+        brk H; try (inv H; congruence); apply IH in H; congruence.
+    Qed.
+
+    Lemma sb_loop_shape rate cap : forall n u start i best r u',
+      sb_loop g access rate cap u start i n best = (r, u') -> full_shape u' = full_shape u.
+    Proof.
+      induction n; cbn [sb_loop]; intros u start i best r u' H.
+      - eapply sb_try_shape; eauto.
+      - destruct (tree_at u (walk_idx start (ntrees u) i)) as [t|]; [|inv H; auto].
+        destruct (t_res t); [eapply IHn; eauto|].
+        destruct (access u (walk_idx start (ntrees u) i)) as [x u1] eqn:E. apply Hacc in E.
+        brk H; try (inv H; congruence); try (apply IHn in H; congruence).
+    Qed.
+
+    Lemma search_best_shape rate cap u start off len r u' :
+      search_best g access rate cap u start off len = (r, u') -> full_shape u' = full_shape u.
+    Proof.
+      unfold search_best. intros H. destruct (_ && _); [inv H; auto|]. eapply sb_loop_shape; eauto.
+    Qed.
+
+    Lemma search_loop_shape : forall n u start i r u',
+      search_loop access u start i n = (r, u') -> full_shape u' = full_shape u.
+    Proof.
+      induction n; cbn [search_loop]; intros u start i r u' H.
+      - inv H; auto.
+      - destruct (access u (walk_idx start (ntrees u) i)) as [x u1] eqn:E. apply Hacc in E.
+        brk H; try (inv H; congruence); apply IHn in H; congruence.
+    Qed.
+  End Loops.
+
+  Lemma trees_change_shape u m ch r u' : trees_change g u m ch = (r, u') -> full_shape u' = full_shape u.
+  Proof.
+    unfold trees_change. intros H. destruct (m_id m).
+    - eapply trees_change_at_shape; eauto.
+    - destruct (ntrees u =? 0); [inv H; auto|].
+      eapply (search_loop_shape (fun u i => trees_change_at g u i (m_class m) (m_free m) ch)); eauto.
+      intros; eapply trees_change_at_shape; eauto.
+  Qed.
+
+  Lemma llfree_change_tree_shape u m ch r u' : llfree_change_tree g u m ch = (r, u') -> full_shape u' = full_shape u.
+  Proof. apply trees_change_shape. Qed.
+
+  Ltac fwd :=
+    repeat match goal with
+    | H : lget_low _ _ _ _ _ = (_, _) |- _ => apply lget_low_shape in H
+    | H : trees_put _ _ _ _ _ = (_, _) |- _ => apply trees_put_shape in H
+    | H : trees_sync _ _ _ = (_, _) |- _ => apply trees_sync_shape in H
+    | H : trees_steal _ _ _ _ _ = (_, _) |- _ => apply trees_steal_shape in H
+    | H : trees_reserve_or_steal _ _ _ _ _ = (_, _) |- _ => apply trees_reserve_or_steal_shape in H
+    | H : trees_unreserve _ _ _ _ _ _ = (_, _) |- _ => apply trees_unreserve_shape in H
+    | H : locals_get _ _ _ _ _ _ = (_, _) |- _ => apply locals_get_shape in H
+    | H : locals_put _ _ _ _ _ _ = (_, _) |- _ => apply locals_put_shape in H
+    | H : locals_swap _ _ _ _ _ _ = (_, _) |- _ => apply locals_swap_shape in H
+    | H : locals_set_start _ _ _ _ _ = (_, _) |- _ => apply locals_set_start_shape in H
+    | H : (_, _) = (_, _) |- _ => inv H
+    | H : Some (_, _) = Some (_, _) |- _ => inv H
+    end.
+  Ltac done := fwd; rewrite ?shape_set_slot in *; congruence.
+
+  Lemma steal_slots_shape : forall n u tc idx len t f j x u',
+    steal_slots g u tc idx len t f j n = Some (x, u') -> full_shape u' = full_shape u.
+  Proof.
+    induction n; cbn [steal_slots]; intros u tc idx len t f j x u' H; [discriminate|].
+    brk H; try (apply IHn in H); done.
+  Qed.
+
+  Lemma steal_any_loop_shape : forall n u c idx t f i r u',
+    steal_any_loop g policy u c idx t f i n = (r, u') -> full_shape u' = full_shape u.
+  Proof.
+    induction n; cbn [steal_any_loop]; intros u c idx t f i r u' H; [inv H; auto|].
+    brk H; try (apply IHn in H);
+      repeat match goal with E : steal_slots _ _ _ _ _ _ _ _ _ = Some _ |- _ => apply steal_slots_shape in E end;
+      done.
+  Qed.
+
+  Lemma locals_steal_any_shape u c idx t f r u' :
+    locals_steal_any g policy u c idx t f = (r, u') -> full_shape u' = full_shape u.
+  Proof. apply steal_any_loop_shape. Qed.
+
+  Lemma demote_slots_shape : forall n u c tc lc len t f j x u',
+    demote_slots g u c tc lc len t f j n = Some (x, u') -> full_shape u' = full_shape u.
+  Proof.
+    induction n; cbn [demote_slots]; intros u c tc lc len t f j x u' H; [discriminate|].
+    brk H; try (apply IHn in H); try discriminate; done.
+  Qed.
+
+  Lemma demote_any_loop_shape : forall n u c lc t f i r u',
+    demote_any_loop g policy u c lc t f i n = (r, u') -> full_shape u' = full_shape u.
+  Proof.
+    induction n; cbn [demote_any_loop]; intros u c lc t f i r u' H; [inv H; auto|].
+    brk H; try (apply IHn in H);
+      repeat match goal with E : demote_slots _ _ _ _ _ _ _ _ _ _ = Some _ |- _ => apply demote_slots_shape in E end;
+      done.
+  Qed.
+
+  Lemma locals_demote_any_shape u c lc t f r u' :
+    locals_demote_any g policy u c lc t f = (r, u') -> full_shape u' = full_shape u.
+  Proof.
+    unfold locals_demote_any. intros H. destruct (class_slots u c); [|inv H; auto].
+    eapply demote_any_loop_shape; eauto.
+  Qed.
+
+  Lemma get_local_shape : forall fuel u o c l fr sync r u',
+    get_local g policy fuel u o c l fr sync = (r, u') -> full_shape u' = full_shape u.
+  Proof.
+    induction fuel; cbn [get_local]; intros u o c l fr sync r u' H; [inv H; auto|].
+    brk H; try (apply IHfuel in H); done.
+  Qed.
+
+  Lemma steal_global_shape u i c o fr r u' :
+    steal_global g policy u i c o fr = (r, u') -> full_shape u' = full_shape u.
+  Proof. unfold steal_global, lift. intros H. brk H; done. Qed.
+
+  Lemma reserve_or_steal_shape u i o c l r u' :
+    reserve_or_steal g policy u i o c l = (r, u') -> full_shape u' = full_shape u.
+  Proof. unfold reserve_or_steal, lift. intros H. brk H; done. Qed.
+
+  Ltac fwd2 :=
+    repeat match goal with
+    | H : locals_steal_any _ _ _ _ _ _ _ = (_, _) |- _ => apply locals_steal_any_shape in H
+    | H : locals_demote_any _ _ _ _ _ _ _ = (_, _) |- _ => apply locals_demote_any_shape in H
+    | H : get_local _ _ _ _ _ _ _ _ _ = (_, _) |- _ => apply get_local_shape in H
+    | H : steal_global _ _ _ _ _ _ _ = (_, _) |- _ => apply steal_global_shape in H
+    | H : reserve_or_steal _ _ _ _ _ _ _ = (_, _) |- _ => apply reserve_or_steal_shape in H
+    end.
+
+  Lemma steal_local_shape u rq fr r u' :
+    steal_local g policy u rq fr = (r, u') -> full_shape u' = full_shape u.
+  Proof. unfold steal_local, lift. intros H. brk H; fwd2; done. Qed.
+
+  Lemma demote_local_shape u rq fr r u' :
+    demote_local g policy u rq fr = (r, u') -> full_shape u' = full_shape u.
+  Proof. unfold demote_local, lift. intros H. brk H; fwd2; done. Qed.
+
+  Lemma search_and_reserve_shape u o c l st r u' :
+    search_and_reserve g policy u o c l st = (r, u') -> full_shape u' = full_shape u.
+  Proof.
+    unfold search_and_reserve. intros H.
+    assert (A : forall u i r u', reserve_or_steal g policy u i o c l = (r, u') -> full_shape u' = full_shape u)
+      by (intros; eapply reserve_or_steal_shape; eauto).
+    match type of H with (match ?first with _ => _ end) = _ => destruct first as [x u1] eqn:E end.
+    assert (E1 : full_shape u1 = full_shape u).
+    { destruct (Nat.ltb o (hord g)); [|inv E; auto].
+      apply (search_best_shape _ A) in E. exact E. }
+    clear E.
+    destruct x as [a|e|s]; [inv H; auto| |inv H; auto].
+    destruct e; try (inv H; auto; fail).
+    apply (search_best_shape _ A) in H. congruence.
+  Qed.
+
+  Ltac fwd3 :=
+    repeat match goal with
+    | H : steal_local _ _ _ _ _ = (_, _) |- _ => apply steal_local_shape in H
+    | H : demote_local _ _ _ _ _ = (_, _) |- _ => apply demote_local_shape in H
+    | H : search_and_reserve _ _ _ _ _ _ _ = (_, _) |- _ => apply search_and_reserve_shape in H
+    end.
+
+  Lemma get_at_shape u f rq r u' : get_at g policy u f rq = (r, u') -> full_shape u' = full_shape u.
+  Proof. unfold get_at, of_glr. intros H. brk H; fwd2; fwd3; done. Qed.
+
+  Lemma llfree_get_shape u f rq r u' : llfree_get g policy u f rq = (r, u') -> full_shape u' = full_shape u.
+  Proof.
+    unfold llfree_get. intros H.
+    assert (A : forall u i r u', steal_global g policy u i (r_class rq) (r_order rq) None = (r, u') ->
+                                 full_shape u' = full_shape u)
+      by (intros; eapply steal_global_shape; eauto).
+    destruct (check g u _ rq); try (inv H; auto; fail).
+    destruct f as [f|]; [eapply get_at_shape; eauto|].
+    brk H; fwd2; fwd3;
+      repeat match goal with
+             | E : search_best _ _ _ _ _ _ _ _ = (_, _) |- _ => apply (search_best_shape _ A) in E
+             end; done.
+  Qed.
+
+  Lemma llfree_put_shape u f rq r u' : llfree_put g policy u f rq = (r, u') -> full_shape u' = full_shape u.
+  Proof.
+    unfold llfree_put. intros H.
+    destruct (check g u f rq); try (inv H; auto; fail).
+    destruct (lower_put g (low u) f (r_order rq)) as [rl l] eqn:E. apply lower_put_fr in E.
+    pose proof (shape_with_low u l E) as W.
+    brk H; done.
+  Qed.
+
+  Lemma drain_slots_shape : forall n u c j r u',
+    drain_slots g policy u c j n = (r, u') -> full_shape u' = full_shape u.
+  Proof.
+    induction n; cbn [drain_slots]; intros u c j r u' H; [inv H; auto|].
+    unfold lift in H. brk H; try (apply IHn in H); done.
+  Qed.
+
+  Lemma drain_classes_shape : forall n u c r u',
+    drain_classes g policy u c n = (r, u') -> full_shape u' = full_shape u.
+  Proof.
+    induction n; cbn [drain_classes]; intros u c r u' H; [inv H; auto|].
+    unfold lift in H.
+    match type of H with context [drain_slots g policy u c 0 ?len] =>
+      destruct (drain_slots g policy u c 0 len) as [x u1] eqn:E end.
+    apply drain_slots_shape in E.
+    destruct x; try (inv H; auto; fail). apply IHn in H. congruence.
+  Qed.
+
+  Lemma llfree_drain_shape u r u' : llfree_drain g policy u = (r, u') -> full_shape u' = full_shape u.
+  Proof. apply drain_classes_shape. Qed.
+
+  (* ----- the history runner ----- *)
+  Lemma step_op_shape u o x u' p : step_op g policy u o = (x, u', p) -> full_shape u' = full_shape u.
+  Proof.
+    destruct o; cbn [step_op]; intros H.
+    - destruct (llfree_get g policy u f r) eqn:E. inv H. eapply llfree_get_shape; eauto.
+    - destruct (llfree_put g policy u f r) eqn:E. inv H. eapply llfree_put_shape; eauto.
+    - destruct (llfree_drain g policy u) eqn:E. inv H. eapply llfree_drain_shape; eauto.
+    - destruct (llfree_change_tree g u m c) eqn:E. inv H. eapply llfree_change_tree_shape; eauto.
+    - inv H; auto.
+    - inv H; auto.
+    - inv H; auto.
+  Qed.
+
+  Theorem run_ops_shape : forall ops u, full_shape (snd (run_ops g policy u ops)) = full_shape u.
+  Proof.
+    induction ops as [|o ops IH]; intros u; cbn [run_ops]; auto.
+    destruct (step_op g policy u o) as [[x u1] p] eqn:E. apply step_op_shape in E.
+    destruct p; cbn [snd]; auto.
+    specialize (IH u1). destruct (run_ops g policy u1 ops) as [xs u2]. cbn [snd] in *. congruence.
+  Qed.
+End Shape.
+
+(* ====================================================================================== *)
+(* the hypotheses of the handoff theorem are functions of the shape                        *)
+(* ====================================================================================== *)
+Definition class_len (u : upper) (c : N) : option nat := option_map (@length slot) (class_slots u c).
+
+Lemma class_len_shape u c :
+  class_len u c = match nth_error (locals_shape u) (nn c) with Some (Some n) => Some n | _ => None end.
+Proof.
+  unfold class_len, class_slots, locals_shape. rewrite nth_error_map.
+  destruct (nth_error (locals u) (nn c)) as [[l|]|]; reflexivity.
+Qed.
+
+Lemma locals_match_shape cl u u' : locals_shape u = locals_shape u' -> locals_match cl u -> locals_match cl u'.
+Proof.
+  intros S (ND & HC & HN & L).
+  assert (CL : forall c, class_len u' c = class_len u c) by (intros; rewrite !class_len_shape, S; auto).
+  split; [exact ND|]. split; [|split].
+  - intros c n Hin. destruct (HC c n Hin) as (C8 & l & Hl & Ll). split; auto.
+    specialize (CL c). unfold class_len in CL. rewrite Hl in CL.
+    destruct (class_slots u' c) as [l'|]; cbn in CL; inv CL. exists l'. split; auto. congruence.
+  - intros c Hc. specialize (HN c Hc). specialize (CL c). unfold class_len in CL. rewrite HN in CL.
+    destruct (class_slots u' c); cbn in CL; congruence.
+  - assert (length (locals_shape u') = length (locals_shape u)) by congruence.
+    unfold locals_shape in H. rewrite !map_length in H. congruence.
+Qed.
+
+(* ====================================================================================== *)
+(* the hypotheses hold for every constructed allocator                                     *)
+(* ====================================================================================== *)
+Lemma go_match : forall cl buf acc acc',
+  NoDup (map fst cl) -> length acc = 8%nat -> (total_slots cl <= length buf)%nat ->
+  locals_go cl buf acc = Ok acc' ->
+  length acc' = 8%nat /\
+  (forall c n, In (c, n) cl -> c < 8 /\ exists l, nth_error acc' (nn c) = Some (Some l) /\ length l = nn n) /\
+  (forall k, ~ In k (map (fun cn => nn (fst cn)) cl) -> nth_error acc' k = nth_error acc k).
+Proof.
+  induction cl as [|[c n] r IH]; intros buf acc acc' ND L T H.
+  - cbn in H. inv H. split; [auto|]. split; [intros ? ? []|auto].
+  - cbn [locals_go] in H. destruct (N.leb_spec 8 c) as [|C8]; [discriminate|].
+    unfold total_slots in T. cbn [fold_right snd] in T. fold (total_slots r) in T.
+    inversion ND as [|? ? Hnin ND']; subst.
+    apply IH in H; auto; [| rewrite upd_length; auto | rewrite skipn_length; lia].
+    destruct H as (L' & Hin & Hout). split; auto.
+    assert (NI : ~ In (nn c) (map (fun cn => nn (fst cn)) r)).
+    { intros Q. apply Hnin. apply in_map_iff in Q. destruct Q as ([c2 n2] & Q1 & Q2). cbn in Q1.
+      apply nn_inj in Q1. subst. apply in_map_iff. exists (c, n2). auto. }
+    split.
+    + intros c' n' [Q|Q].
+      * inv Q. split; auto. exists (firstn (nn n') buf). split.
+        -- rewrite Hout by exact NI. apply nth_error_upd_same. rewrite L. unfold nn. lia.
+        -- apply firstn_length_le. lia.
+      * apply Hin; auto.
+    + intros k Hk. rewrite Hout.
+      * apply nth_error_upd_other. intros Q. apply Hk. left. cbn. auto.
+      * intros Q. apply Hk. right. auto.
+Qed.
+
+Lemma locals_go_ok : forall cl buf acc, (forall c n, In (c, n) cl -> c < 8) -> exists ls, locals_go cl buf acc = Ok ls.
+Proof.
+  induction cl as [|[c n] r IH]; intros buf acc H; cbn [locals_go]; eauto.
+  destruct (N.leb_spec 8 c) as [C|C]; [specialize (H c n (or_introl eq_refl)); lia|].
+  apply IH. intros c' n' Q. eapply H. right; eauto.
+Qed.
+
+Lemma fold_left_inv {A B} (f : A -> B -> A) (P : A -> Prop) :
+  (forall a b, P a -> P (f a b)) -> forall l a, P a -> P (fold_left f l a).
+Proof. intros Hf. induction l; cbn; auto. Qed.
+
+Section New.
+  Variable g : geom.
+
+  Lemma llfree_new_locals u fr i classing d lbuf tbuf sbuf :
+    llfree_new g fr i classing d lbuf tbuf sbuf = Ok u ->
+    locals_go classing sbuf (repeat None 8) = Ok (locals u) /\ dflt u = d /\ low u = lower_new g fr i lbuf.
+  Proof.
+    unfold llfree_new. rewrite locals_new_go. intros H.
+    destruct (locals_go classing sbuf (repeat None 8)) as [ls| |]; try discriminate.
+    destruct i; try (destruct (trees_new g _ d); try discriminate); inv H; auto.
+  Qed.
+
+  (* any mode, any sufficiently long local buffer *)
+  Theorem llfree_new_locals_match_gen fr i classing d lbuf tbuf sbuf u :
+    NoDup (map fst classing) -> (total_slots classing <= length sbuf)%nat ->
+    llfree_new g fr i classing d lbuf tbuf sbuf = Ok u -> locals_match classing u.
+  Proof.
+    intros ND T H. apply llfree_new_locals in H. destruct H as (E & _).
+    apply go_match in E; auto using repeat_length. destruct E as (L & Hin & Hout).
+    split; [exact ND|]. split; [|split; [|exact L]].
+    - intros c n Q. destruct (Hin c n Q) as (C8 & l & Hl & Ll). split; auto. exists l. split; auto.
+      unfold class_slots. rewrite Hl. reflexivity.
+    - intros c Hc. unfold class_slots. rewrite Hout.
+      + destruct (nth_error (repeat None 8) (nn c)) as [[l|]|] eqn:Q; auto.
+        apply nth_error_In, repeat_spec in Q. discriminate.
+      + intros Q. apply Hc. apply in_map_iff in Q. destruct Q as ([c2 n2] & Q1 & Q2). cbn in Q1.
+        apply nn_inj in Q1. subst. apply in_map_iff. exists (c, n2). auto.
+  Qed.
+
+  (* the fresh allocator: FreeAll over a zeroed local buffer of exactly the required size *)
+  Theorem llfree_new_locals_match fr classing d lbuf tbuf u :
+    NoDup (map fst classing) ->
+    llfree_new g fr IFreeAll classing d lbuf tbuf (repeat slot_none (total_slots classing)) = Ok u ->
+    locals_match classing u.
+  Proof. intros ND. apply llfree_new_locals_match_gen; auto. rewrite repeat_length. lia. Qed.
+
+  (* the local part of construction cannot fail when the class ids are < 8 *)
+  Lemma locals_new_ok classing sbuf : (forall c n, In (c, n) classing -> c < 8) -> exists ls, locals_new classing sbuf = Ok ls.
+  Proof. intros H. rewrite locals_new_go. apply locals_go_ok; auto. Qed.
+
+  Lemma lower_new_frames fr i buf : frames (lower_new g fr i buf) = fr.
+  Proof.
+    destruct i; cbn [lower_new]; try reflexivity.
+    unfold lower_recover. cbn [ents].
+    apply (fold_left_inv (recover_one g) (fun l => frames l = fr)); [|reflexivity].
+    intros l h <-. unfold recover_one.
+    destruct (nth_error (ents l) h), (nth_error (bfs l) h); auto.
+    destruct (e_huge n); [destruct (_ =? _)|destruct (_ =? _)]; reflexivity.
+  Qed.
+
+  Lemma trees_new_length l d ts : trees_new g l d = Ok ts -> length ts = nn (ntab g (frames l)).
+  Proof.
+    unfold trees_new. rewrite <- (seq_length (nn (ntab g (frames l))) 0) at 2.
+    generalize (seq 0 (nn (ntab g (frames l)))). intros xs. revert ts.
+    induction xs as [|x xs IH]; cbn [fold_right]; intros ts H.
+    - inv H. reflexivity.
+    - destruct (fold_right _ _ xs) as [ts'| |]; try discriminate.
+      destruct (lower_stats_at g l _ (tord g)); try discriminate.
+      destruct (_ <? _); inv H. cbn [length]. f_equal. apply IH. reflexivity.
+  Qed.
+
+  Theorem llfree_new_trees_len fr i classing d lbuf tbuf sbuf u :
+    (i = INone -> (nn (ntab g fr) <= length tbuf)%nat) ->
+    llfree_new g fr i classing d lbuf tbuf sbuf = Ok u ->
+    frames (low u) = fr /\ length (trees u) = nn (ntab g (frames (low u))).
+  Proof.
+    intros HT H. pose proof (llfree_new_locals _ _ _ _ _ _ _ _ H) as (_ & _ & HL).
+    assert (F : frames (low u) = fr) by (rewrite HL; apply lower_new_frames).
+    split; auto. rewrite F. unfold llfree_new in H.
+    destruct (locals_new classing sbuf); try discriminate.
+    destruct i.
+    4:{ inv H. cbn [trees]. apply firstn_length_le. auto. }
+    all: destruct (trees_new g _ d) as [ts| |] eqn:E; try discriminate; inv H; cbn [trees];
+      apply trees_new_length in E; rewrite lower_new_frames in E; exact E.
+  Qed.
+End New.
+
+(* ====================================================================================== *)
+(* the handoff hypotheses along every history                                              *)
+(* ====================================================================================== *)
+Section Closure.
+  Variable g : geom.
+  Variable policy : N -> N -> N -> pol.
+
+  Theorem run_ops_locals_shape u ops : locals_shape (snd (run_ops g policy u ops)) = locals_shape u.
+  Proof. pose proof (run_ops_shape g policy ops u) as H. unfold full_shape in H. congruence. Qed.
+
+  Theorem run_ops_locals_match classing u ops :
+    locals_match classing u -> locals_match classing (snd (run_ops g policy u ops)).
+  Proof. apply locals_match_shape. symmetry. apply run_ops_locals_shape. Qed.
+
+  Theorem run_ops_trees_len u ops :
+    length (trees u) = nn (ntab g (frames (low u))) ->
+    let u' := snd (run_ops g policy u ops) in
+    frames (low u') = frames (low u) /\ length (trees u') = nn (ntab g (frames (low u'))).
+  Proof.
+    intros T u'. pose proof (run_ops_shape g policy ops u) as H. fold u' in H. unfold full_shape in H.
+    inversion H as [[H1 H2 H3 H4]]. rewrite H2, H3. auto.
+  Qed.
+
+  (* Constructed in any mode, used for any history: the state can be handed over, and the receiver IS the
+     state of the donor (hence behaves identically, C07_handoff). *)
+  Theorem handoff_after_history fr i classing d lbuf tbuf sbuf u0 ops :
+    NoDup (map fst classing) -> (total_slots classing <= length sbuf)%nat ->
+    (i = INone -> (nn (ntab g fr) <= length tbuf)%nat) ->
+    llfree_new g fr i classing d lbuf tbuf sbuf = Ok u0 ->
+    let u := snd (run_ops g policy u0 ops) in
+    forall tjunk sjunk,
+      llfree_new g fr INone classing d (low u) (trees u ++ tjunk) (flat_slots classing u ++ sjunk) = Ok u.
+  Proof.
+    intros ND T HT H u tj sj.
+    pose proof (llfree_new_locals_match_gen g _ _ _ _ _ _ _ _ ND T H) as M.
+    pose proof (llfree_new_trees_len g _ _ _ _ _ _ _ _ HT H) as (F & L).
+    pose proof (llfree_new_locals g _ _ _ _ _ _ _ _ H) as (_ & D & _).
+    pose proof (run_ops_locals_match classing u0 ops M) as M'.
+    pose proof (run_ops_trees_len u0 ops L) as (F' & L'). fold u in M', F', L'.
+    (* dflt is never written *)
+    assert (D' : dflt u = dflt u0).
+    { pose proof (run_ops_shape g policy ops u0) as S. fold u in S. unfold full_shape in S. congruence. }
+    pose proof (handoff_identity_junk g classing u tj sj M' L') as X.
+    rewrite F', F, D', D in X. exact X.
+  Qed.
+End Closure.
+
+(* ====================================================================================== *)
+(* 5. non-vacuity                                                                          *)
+(* ====================================================================================== *)
+Module Example.
+  Definition ex_g := {| hord := 9; tlog := 2 |}.                   (* HF = 512, TF = 2048 *)
+  Definition ex_policy (r t f : N) : pol := if t <? r then PSteal else if r <? t then PDemote else PMatch 1.
+  Definition ex_classing : list (N * N) := [(0, 2); (1, 2)].
+  Definition ex_lower0 : lower := {| frames := 0; bfs := []; ents := [] |}.
+  (* fresh allocator: 5000 frames (3 trees, the last one partial), default class 1 *)
+  Definition ex_new : res upper :=
+    llfree_new ex_g 5000 IFreeAll ex_classing 1 ex_lower0 [] (repeat slot_none (total_slots ex_classing)).
+  Definition rq o c l := {| r_order := o; r_class := c; r_local := l |}.
+  (* history of the donor before the handoff *)
+  Definition ex_ops1 : list op :=
+    [OGet None (rq 0 0 (Some 0)); OGet None (rq 0 1 (Some 1)); OGet None (rq 9 1 (Some 0));
+     OGet (Some 4100) (rq 2 0 None); OGet None (rq 3 0 (Some 1)); OPut 4096 (rq 0 1 (Some 1));
+     OPut 4096 (rq 0 1 None); OStats].
+  (* history run on both allocators after the handoff *)
+  Definition ex_ops2 : list op :=
+    [OGet None (rq 0 1 (Some 0)); OPut 2048 (rq 0 0 (Some 0)); OPut 0 (rq 9 1 None);
+     OGet None (rq 11 0 (Some 0)); OGet None (rq 5 0 None); OTreeStats; ODrain;
+     OChange {| m_id := Some 1; m_class := None; m_free := 0 |} {| c_class := Some 1; c_op := None |};
+     OGet None (rq 10 1 (Some 1)); OStats; OStatsAt 2048 11; OTreeStats; OGet None (rq 0 5 None)].
+  (* the receiver's buffers are longer than needed *)
+  Definition ex_junk_t : list tree := [{| t_free := 77; t_res := true; t_class := 3 |}].
+  Definition ex_junk_s : list slot := [{| s_pres := true; s_row := 9; s_free := 5 |}].
+
+  (* outputs of the donor's history, then the runs of receiver and donor over ex_ops2 *)
+  Definition ex_run : option (list out * (list out * upper) * (list out * upper)) :=
+    match ex_new with
+    | Ok u0 =>
+        let '(o1, u) := run_ops ex_g ex_policy u0 ex_ops1 in
+        match llfree_new ex_g 5000 INone ex_classing 1 (low u)
+                         (trees u ++ ex_junk_t) (flat_slots ex_classing u ++ ex_junk_s) with
+        | Ok u' => Some (o1, run_ops ex_g ex_policy u' ex_ops2, run_ops ex_g ex_policy u ex_ops2)
+        | _ => None
+        end
+    | _ => None
+    end.
+
+  Definition cs f a := {| cs_free := f; cs_alloc := a |}.
+  Definition ex_out1 : list out :=
+    [RGet (Ok (2048, 0)); RGet (Ok (4096, 1)); RGet (Ok (0, 1)); RGet (Ok (4100, 0)); RGet (Ok (4104, 0));
+     RPut (Ok tt); RPut (Err EMemory);
+     RStats {| free_frames := 4475; free_huge := 6; free_trees := 0 |}].
+  Definition ex_out2 : list out :=
+    [RGet (Ok (512, 1)); RPut (Ok tt); RPut (Ok tt); RGet (Ok (2048, 0)); RGet (Ok (4128, 0));
+     RTreeStats (Ok {| ts_free := 2907; ts_trees := 0;
+                       ts_classes := [cs 860 3236; cs 2047 1; cs 0 0; cs 0 0; cs 0 0; cs 0 0; cs 0 0; cs 0 0] |});
+     RDrain (Ok tt); RChange (Ok tt); RGet (Ok (1024, 1));
+     RStats {| free_frames := 1883; free_huge := 1; free_trees := 0 |};
+     RStatsAt (Ok {| free_frames := 0; free_huge := 0; free_trees := 0 |});
+     RTreeStats (Ok {| ts_free := 1883; ts_trees := 0;
+                       ts_classes := [cs 860 1188; cs 1023 3073; cs 0 0; cs 0 0; cs 0 0; cs 0 0; cs 0 0; cs 0 0] |});
+     RGet (Err EArgument)].
+
+  (* both allocators produce the same (explicitly given) outputs and end in the same state *)
+  Example ex_handoff : exists uf, ex_run = Some (ex_out1, (ex_out2, uf), (ex_out2, uf)).
+  Proof. eexists. vm_compute. reflexivity. Qed.
+
+  (* the hypotheses of the theorems hold for the donor at the moment of the handoff, by the general lemmas *)
+  Example ex_hypotheses : exists u0, ex_new = Ok u0 /\
+    let u := snd (run_ops ex_g ex_policy u0 ex_ops1) in
+    locals_match ex_classing u /\ length (trees u) = nn (ntab ex_g (frames (low u))).
+  Proof.
+    destruct ex_new as [u0|e|s] eqn:E; [|vm_compute in E; discriminate..].
+    exists u0. split; [reflexivity|]. cbv zeta.
+    assert (ND : NoDup (map fst ex_classing)).
+    { cbn. repeat constructor; cbn; intuition discriminate. }
+    split.
+    - apply run_ops_locals_match. eapply llfree_new_locals_match; [exact ND|exact E].
+    - eapply llfree_new_trees_len in E; [|discriminate]. destruct E as (F & L).
+      apply (run_ops_trees_len ex_g ex_policy u0 ex_ops1 L).
+  Qed.
+End Example.
